@@ -698,3 +698,91 @@ SPECS["C18"] = _client_only(
     "id) and multi-hop chains are covered by the server model's Yield observations and by the chain driver, not by "
     "this theorem; 'fresh' means drawn anew, distinctness of random 64-bit values is not claimed; runs with an "
     "OpenTelemetry subscriber are not modelled.")
+
+SPECS["C07"] = {
+    "pid": "C07",
+    "harness": "c07",
+    "translator": wire_translator,
+    "runner": wire_runner,
+    "coq_targets": ["Properties/C07.vo", "Checks/C07check.vo", "GenChecks/C07.vo"],
+    "gen_obligations": ["gen_default_deadline", "gen_client_message_shape", "gen_client_message_shape_wf",
+                        "gen_max_timeout", "gen_deserialize_checked_add"],
+    "cases_header": ("From Coq Require Import List NArith ZArith Bool.\nImport ListNotations.\n"
+                     "From TarpcV Require Import Base Time Hops Checks.C07check.\nLocal Open Scope Z_scope.\n"),
+    "case_term": lambda c: f"({c['cfg']}, {c['ops']}, {c['obs']})",
+    "quick": {"count": 600},
+    "thorough": {"count": 15000},
+    "sweeps": [[]],
+    "shrink_budget": 40,
+    "nontrivial": lambda c: "multi-hop" in c["tags"] or "sent-after-expiry" in c["tags"]
+    or "deadline-omitted" in c["tags"] or "zero-remaining" in c["tags"] or "sub-millisecond" in c["tags"]
+    or "years" in c["tags"],
+    "rule": "one script = one real chain of 1..3 hops: for every hop a client::new dispatch and a BaseChannel/Requests "
+            "server whose handler reads ctx.deadline (the context it is given, or context::current() under the "
+            "OpenTelemetry layer) and makes a nested call with that same context on the next hop; transports: "
+            "tarpc::serde_transport with JSON or bincode over byte queues that the script moves, or "
+            "transport::channel::unbounded; virtual time (clock_gettime interposition + tokio's paused clock), every "
+            "future polled by hand. Tokens: one root call with remaining time from {0, 1 ns, 999 ns, 1 ms, 1 s -+ 1 ns, "
+            "10 s, 1 h, 1 day, 1 / 3 / 100 / 285 years}, clock advances from {0, 1, 2, 7, 100, 999, 1000, 10^4, 1 h, 1 day} "
+            "ms before every send and every delivery (a third of the scripts let the deadline pass before some hop is "
+            "sent), hand-written JSON requests WITHOUT a deadline injected on a quarter of the JSON links. Compared: the "
+            "Duration written on every link and the deadline every handler sees, in ns. non-trivial = at least two hops "
+            "delivered, or a hop sent after expiry, or an omitted deadline, or a zero / sub-millisecond / multi-year "
+            "remaining time; distinct = distinct script text; thorough adds the bounded-exhaustive family: 14 remaining "
+            "times x 7 x 3 transit delays x 3 transports over two hops, and 'sent one ms before / at / after the "
+            "deadline' over three hops",
+    "trusted_base": COMMON_TB + WIRE_TB + [
+        "virtual time: harness/src/vclock.rs interposes clock_gettime for the whole process, so std::time::Instant::now() "
+        "inside tarpc follows the scripted clock",
+    ],
+    "level_text": "Main theorem C07_monitor: for every codec (JSON, bincode, in-memory), chain length and script of calls, "
+                  "clock advances, sends, deadline-less injected requests and deliveries, the monitor accepts the model's "
+                  "run: every handler sees D' with D <= D' <= max(D, ts) + (tr - ts), D' = tr when sent after expiry, "
+                  "D' = tr + 10 s for an omitted deadline, D' = D over the in-memory transport, and the Duration written is "
+                  "max(0, D - ts). Underneath: C07_deadline_hop (one hop, exact), C07_deadline_chain / _chain_late (n hops by "
+                  "induction: 0 <= D_n - D_0 <= sum of transit times), C07_hop_total (never an error), C07_default_deadline, "
+                  "C07_json_deadline_omitted, C07_duration_exact_bincode / _json (the Duration is carried exactly by both "
+                  "codecs, from the C15 round trips). The default, MAX_TIMEOUT, the checked add and the serde shape of the "
+                  "context are re-derived from /repo on every run; the model's observations are compared with real 1-3 hop "
+                  "chains inside Coq on every generated script.",
+    "level_note": "Trusted: Coq kernel, vm_compute, translator, Rust harness (incl. the clock interposition), Python driver. "
+                  "Modelled not verified: std::time arithmetic. Partial: context::current() inside a handler reads the "
+                  "deadline from the OpenTelemetry span context; that path is exercised by the harness (a sixth of the "
+                  "scripts) and must give the same observations, but it is not modelled separately. Boundary (lemma "
+                  "C07_deadline_hop_saturation_refuted): a deadline within transit time of the end of the Instant range "
+                  "(about 292 billion years away) is decoded as now + MAX_TIMEOUT, i.e. EARLIER than the caller's deadline; "
+                  "the theorems carry the representability premise and the generator stays below 292 years. "
+                  "Correspondence is sampled, not proved.",
+    "design_ref": "DESIGN.md section 6 (C07)",
+    "assumptions": ["sender and receiver clocks are on one time line and the receiver's reading is not earlier than the "
+                    "sender's (tr >= ts); the receiver's monotonic clock leaves room for MAX_TIMEOUT + 1 s below "
+                    "i64::MAX seconds (mono_env)",
+                    "the caller's deadline plus the accumulated transit time is representable as an Instant "
+                    "(necessary: C07_deadline_hop_saturation_refuted)"],
+}
+
+
+SPECS["C09"] = {
+    "pid": "C09",
+    "coq_targets": ["Properties/C09.vo", "Checks/C09client.vo"],
+    "parts": [client_part("c09", "C09client",
+                          has("dispatch:err:ARead", "dispatch:err:AReady", "dispatch:err:AFlush",
+                              "dispatch:err:AClose", "dispatch:err:AWrite", "send-failed", "done:connerr"),
+                          "a transport fault actually hit the real dispatch (terminal error, failed request write or a "
+                          "caller seeing a connection error)")],
+    "trusted_base": COMMON_TB + CLIENT_TB,
+    "level_text": "Client half proved: C09_client_monitor - for EVERY transport, configuration and op list the client model's "
+                  "trace is accepted by the C09 monitor: the first fatal failure (read/ready/flush/close error or a failed "
+                  "cancellation write) is the activity the dispatch ends with, a failed request write fails only that call, "
+                  "the transport is never touched after a fatal failure, every connection error a caller sees names that "
+                  "activity, and once the dispatch has failed or was dropped no call stays pending. Tied to the real client by "
+                  "replaying scripts that arm a one-shot fault on each transport method at arbitrary points with calls in "
+                  "every stage, and EOF at every point; every poll runs under catch_unwind (a panic is an observation the "
+                  "monitor rejects).",
+    "level_note": _CLIENT_NOTE + "Server half (stream yields Err naming the activity, serving stops, handlers aborted on drop) "
+                  "is being added from the server model. 'None hangs' is proved for explicit polls of the model; that the "
+                  "tasks are actually woken is C02's subject.",
+    "design_ref": "DESIGN.md section 6 (C09)",
+    "assumptions": ["one op is atomic (one poll, one drop step, one delivery)",
+                    "fewer than 2^64 operations (request ids do not wrap)"],
+}
